@@ -463,6 +463,26 @@ def tables_case(rep):
                     rep.side(f'tables/multi_implicit/Q1={A}/Q2={B_}/M{M}/{qt}', ok, {'Q1': L.sweep.Q1.tolist(), 'Q2': L.sweep.Q2.tolist()})
                 except Exception as e:
                     rep.side(f'tables/history/{A}-then-{B_}/M{M}/{qt}', False, f'{type(e).__name__}: {e}')
+        # a sweeper re-initialised in place with another node set (what AdaptiveCollocation.switch_sweeper does): every table it holds afterwards belongs
+        # to the NEW nodes -- same node count with another quadrature / node type, and another node count
+        for (M2, qt2, nt2) in ((M, 'RADAU-LEFT' if qt == 'LOBATTO' else 'LOBATTO', 'LEGENDRE'), (M, qt, 'EQUID'), (M, 'GAUSS', 'LEGENDRE'), (M + 1, qt, 'LEGENDRE'), (M - 1 if M > 2 else M + 2, 'RADAU-RIGHT', 'LEGENDRE')):
+            coll2 = CollBase(M2, 0, 1, node_type=nt2, quad_type=qt2)
+            for A in names:
+                try:
+                    ref = np.asarray(QDELTA_GENERATORS[A](qGen=coll2.generator, tLeft=0).genCoeffs())
+                except Exception:
+                    continue
+                L = cm.make_level(ss.FLin, {'A': [[-1.0]]}, gi, {'num_nodes': M, 'quad_type': qt, 'QI': A}, 0.1)
+                L.sweep.__init__({'num_nodes': M2, 'quad_type': qt2, 'node_type': nt2, 'QI': A}, L)
+                ok = np.array_equal(L.sweep.QI[1:, 1:], ref, equal_nan=True) and np.array_equal(L.sweep.coll.Qmat, coll2.Qmat) and np.array_equal(L.sweep.get_Qdelta_implicit(A)[1:, 1:], ref, equal_nan=True)
+                rep.side(f'tables/reinit/{A}/M{M}/{qt}->M{M2}/{qt2}/{nt2}', ok, {'QI': np.asarray(L.sweep.QI).tolist(), 'ref': ref.tolist()})
+            for A in cm.EXPLICIT_QD:
+                ref = np.asarray(QDELTA_GENERATORS[A](qGen=coll2.generator, tLeft=0).genCoeffs())
+                refI = np.asarray(QDELTA_GENERATORS['IE'](qGen=coll2.generator, tLeft=0).genCoeffs())
+                L = cm.make_level(ss.FImex, {'AI': [[-1.0]], 'AE': [[0.5]]}, im, {'num_nodes': M, 'quad_type': qt, 'QI': 'IE', 'QE': A}, 0.1)
+                L.sweep.__init__({'num_nodes': M2, 'quad_type': qt2, 'node_type': nt2, 'QI': 'IE', 'QE': A}, L)
+                ok = np.array_equal(L.sweep.QE[1:, 1:], ref) and np.array_equal(L.sweep.QI[1:, 1:], refI)
+                rep.side(f'tables/reinit-explicit/{A}/M{M}/{qt}->M{M2}/{qt2}/{nt2}', ok, {'QE': np.asarray(L.sweep.QE).tolist(), 'ref': ref.tolist()})
         for A in cm.EXPLICIT_QD:
             for B_ in cm.EXPLICIT_QD:
                 L = cm.make_level(ss.FImex, {'AI': [[-1.0]], 'AE': [[0.5]]}, im, {'num_nodes': M, 'quad_type': qt, 'QI': 'IE', 'QE': A}, 0.1)
